@@ -89,6 +89,9 @@ m('C07', B, '\tref.refreshCnt = 0\n', '', 'a response does not reset the back-of
 m('C07', P, 'scRef.deCallsInc() >= p.gb.cfg.GetChannelPool().GetUnresponsiveCalls()', 'scRef.deCallsInc() < p.gb.cfg.GetChannelPool().GetUnresponsiveCalls()', 'threshold comparison inverted')
 m('C07', P, '\tif !p.gb.unresponsiveDetection {\n\t\treturn\n\t}\n', '', 'detection runs although disabled')
 
+m('C07', P, '\tcallStarted := time.Now()\n', '\tcallStarted := time.Time{}\n', 'the call\'s start time is never taken')
+m('C07', B, '\t\tlastResp:    time.Now(),\n', '', 'a new slot starts with a zero last-response time')
+m('C07', P, '\tscRef, err := p.getAndIncrementSubConnRef(info.Ctx, boundKey, cmd)\n\tif err != nil {\n\t\treturn balancer.PickResult{}, err\n\t}\n\tif scRef == nil {\n\t\tif p.log.V(FINEST) {\n\t\t\tp.log.Info("returning balancer.ErrNoSubConnAvailable as no SubConn was picked.")\n\t\t}\n\t\treturn balancer.PickResult{}, balancer.ErrNoSubConnAvailable\n\t}\n\n\tcallStarted := time.Now()\n', '\tcallStarted := time.Now()\n\tscRef, err := p.getAndIncrementSubConnRef(info.Ctx, boundKey, cmd)\n\tif err != nil {\n\t\treturn balancer.PickResult{}, err\n\t}\n\tif scRef == nil {\n\t\tif p.log.V(FINEST) {\n\t\t\tp.log.Info("returning balancer.ErrNoSubConnAvailable as no SubConn was picked.")\n\t\t}\n\t\treturn balancer.PickResult{}, balancer.ErrNoSubConnAvailable\n\t}\n\n', 'the clock is read before the channel is chosen (seed C07-11)')
 # ---------------- C08
 m('C08', B, 'if scRef, _ := p.minStreamsSubConnRef(); scRef != nil {', 'if scRef, err := p.getLeastBusySubConnRef(); err == nil && scRef != nil {', 'fallback selection can refuse/grow/lock (F1b)')
 m('C08', B, 'if oldS == connectivity.Ready && s != oldS {', 'if oldS == connectivity.Ready && s == connectivity.TransientFailure {', 'stand-in purge condition weakened')
@@ -105,6 +108,7 @@ m('C09', B, '\t\tsigChan := scRef.stateSignal\n\t\tgb.mu.RUnlock()', '\t\tgb.mu.
 m('C09', B, 'gb.scRefList = append(gb.scRefList, gb.scRefs[sc])', 'gb.scRefList = append([]*subConnRef{gb.scRefs[sc]}, gb.scRefList...)', 'list prepended (creation order lost)')
 m('C09', P, '\t\tscRef := p.gb.getSubConnRoundRobin(ctx)', '\t\tscRef := p.gb.getSubConnRoundRobin(ctx)\n\t\tscRef = p.scRefs[0]', 'cursor choice overridden')
 
+m('C09', B, '\t\t\t\tmp[method] = affinityCfg\n', '\t\t\t\tmp[method] = affinityCfg\n\t\t\t\tbreak\n', 'only the first name of a method entry gets into the method table')
 # ---------------- C10
 m('C10', G, '\tgme.mu.RLock()\n\tdefer gme.mu.RUnlock()\n\tme, ook := gme.mes[name]', '\tme, ook := gme.mes[name]', 'pickConn without the lock (F15f)')
 m('C10', M, '\tme.Lock()\n\tdefer me.Unlock()\n\teMap := make(map[string]*endpoint)', '\teMap := make(map[string]*endpoint)', 'constructor races with its timers (F19)')
@@ -157,6 +161,7 @@ m('C15', G, '\t\t\tmc.stopMonitoring()\n\t\t\tdelete(gme.pools, e)', '\t\t\tdele
 m('C15', G, '\treturn gme.pickConn(ctx).Invoke(ctx, method, args, reply, opts...)', '\treturn gme.pickConn(context.Background()).Invoke(ctx, method, args, reply, opts...)', 'routing ignores the MultiEndpoint named in the context')
 m('C15', G, '\t\ts := mc.conn.GetState()\n\t\tfor _, me := range gme.mes {', '\t\ts := mc.conn.GetState()\n\t\tif s != connectivity.Ready {\n\t\t\tcontinue\n\t\t}\n\t\tfor _, me := range gme.mes {', 'status sync skips non-READY pools')
 
+m('C15', G, '\t// Remove obsolete MultiEndpoints.\n\tfor name := range gme.mes {', '\t// Remove obsolete MultiEndpoints.\n\tfor name := range gme.mes {\n\t\tif len(gme.mes) <= len(meOpts.MultiEndpoints) {\n\t\t\tbreak\n\t\t}', 'obsolete MultiEndpoints pruned only while there are more MultiEndpoints than options')
 # ---------------- C16
 m('C16', G, '\t\tif meo == nil || len(meo.Endpoints) == 0 {', '\t\tif meo == nil {', 'empty lists not rejected up front (F12b)')
 m('C16', G, '\t\t// Release pools (and their monitors) that were created before the failure.\n\t\tgme.Close()\n', '', 'failed construction leaks pools (F12c)')
@@ -199,6 +204,7 @@ m('C19', CS, 'checksum := crc32.Checksum(bytes, crc32c)', 'checksum := crc32.Che
 m('C19', CS, '\tif err != nil {\n\t\treturn bytes, err\n\t}\n\tcrc32c', '\tif err != nil && len(bytes) == 0 {\n\t\treturn bytes, err\n\t}\n\tcrc32c', 'wrapped codec error swallowed')
 
 # ---------------- C20
+m('C20', B, '\tfor sc := range gb.refreshingScRefs {\n\t\tsc.UpdateAddresses(addrs)\n\t\tsc.Connect()\n\t}', '\tfor _, ref := range gb.refreshingScRefs {\n\t\tref.subConn.UpdateAddresses(addrs)\n\t\tref.subConn.Connect()\n\t}', 'replacements reached through the registry value (the old slot): the old connection is pushed twice (seed C20-11)')
 m('C20', B, '\tgb.addrs = addrs\n\tif gb.cfg == nil {', '\tif gb.cfg == nil {', 'address list not stored')
 m('C20', B, '\t\tscRef.subConn.UpdateAddresses(addrs)\n\t\tscRef.subConn.Connect()', '\t\tif gb.scStates[scRef.subConn] == connectivity.Ready {\n\t\t\tcontinue\n\t\t}\n\t\tscRef.subConn.UpdateAddresses(addrs)\n\t\tscRef.subConn.Connect()', 'READY connections keep the old addresses')
 m('C20', B, '\tfor sc := range gb.refreshingScRefs {\n\t\tsc.UpdateAddresses(addrs)\n\t\tsc.Connect()\n\t}\n', '', 'in-flight replacements keep the old addresses (F17)')
